@@ -157,7 +157,161 @@ def c01_family():
     return out
 
 
+# ------------------------------------------------------------------ C12
+def c12_family():
+    out = []
+    for rate, k, r in (("high", 2, 2), ("low", 2, 2), ("high", 3, 1), ("low", 1, 3), ("high", 3, 2), ("low", 2, 3)):
+        out.append(dict(mod="gen::c12g", name=f"enc_result_{rate}_{k}_{r}", unwind=66,
+                        body=f"crate::c12::enc_result::<{ENC_TY[rate]}<N>>({k}, {r})", kind="enc_result", rate=rate, k=k, r=r))
+    for rate, k, r in (("high", 2, 2), ("low", 2, 2), ("high", 3, 2), ("low", 2, 3)):
+        for om in range(1 << k):
+            for rm in range(1 << r):
+                if popcount(om) + popcount(rm) < k:
+                    continue
+                complete = om == (1 << k) - 1
+                out.append(dict(mod="gen::c12g", name=f"dec_result_{rate}_{k}_{r}_o{om}_r{rm}", unwind=66, stub=(rate == "low" and not complete),
+                                body=f"crate::c12::dec_result::<{DEC_TY[rate]}<N>>({k}, {r}, {om}, {rm})",
+                                kind="dec_result", rate=rate, k=k, r=r, om=om, rm=rm, complete=complete))
+    return out
+
+
+# ------------------------------------------------------------------ C10
+def c10_family():
+    out = []
+    dec = [
+        # (k, r, original lengths, recovery lengths)
+        (1, 1, [], []), (1, 1, [2], []), (1, 1, [2, 2], []), (1, 1, [2, 2, 2], []), (1, 1, [], [2]), (1, 1, [2], [2]), (1, 1, [2], [2, 2]),
+        (1, 1, [4], [2]), (1, 1, [2], [4]), (1, 1, [0], [2]), (1, 1, [2], [0]), (1, 1, [2], [1]), (1, 1, [3], []), (1, 1, [0], []),
+        (2, 1, [2], []), (2, 1, [2, 2], []), (2, 1, [2, 4], []), (2, 1, [2, 2, 2], []), (2, 1, [2, 2], [2]), (2, 1, [2], [2]), (2, 1, [4, 4], [4]),
+        (2, 2, [2, 2], [2, 2]), (2, 2, [2], [2]), (1, 2, [2], [2, 2]), (1, 2, [], []), (1, 2, [4], []),
+        (0, 1, [], []), (1, 0, [2], []), (65536, 1, [], [2]),
+    ]
+    for k, r, lo, lr in dec:
+        nm = f"oneshot_decode_{k}_{r}_o{'_'.join(map(str, lo)) or 'none'}_r{'_'.join(map(str, lr)) or 'none'}"
+        out.append(dict(mod="gen::c10g", name=nm, unwind=19, body=f"crate::c10::oneshot_decode::<{len(lo)}, {len(lr)}>({k}, {r}, {lo}, {lr})",
+                        kind="decode", k=k, r=r, lo=lo, lr=lr))
+    enc = [(1, 1, []), (2, 1, [2]), (2, 1, [2, 2, 2]), (1, 1, [2, 2]), (1, 1, [0]), (1, 1, [3]), (2, 1, [2, 4]), (2, 2, [4, 2]), (0, 1, [2]), (1, 0, [2]),
+           (3, 2, [2, 2]), (40000, 40000, [2])]
+    for k, r, lo in enc:
+        nm = f"oneshot_encode_{k}_{r}_o{'_'.join(map(str, lo)) or 'none'}"
+        out.append(dict(mod="gen::c10g", name=nm, unwind=19, body=f"crate::c10::oneshot_encode::<{len(lo)}>({k}, {r}, {lo})",
+                        kind="encode", k=k, r=r, lo=lo))
+    return out
+
+
+# ------------------------------------------------------------------ C07
+def c07_family():
+    out = []
+    decs = [("high", "HighRateDecoder<N>", 2, 2, True), ("low", "LowRateDecoder<N>", 2, 2, True),
+            ("dhigh", "DefaultRateDecoder<N>", 2, 1, False), ("dlow", "DefaultRateDecoder<N>", 1, 2, False),
+            ("high32", "HighRateDecoder<N>", 3, 2, True), ("low23", "LowRateDecoder<N>", 2, 3, True)]
+    for tag, ty, k, r, finish in decs:
+        calls = [(0, 0), (1, 0), (2, 0), (3, 0)] + [(4, l) for l in (0, 1, 3, 4)] + [(5, l) for l in (0, 3)]
+        if k >= 2:
+            calls.append((6, 0))
+        calls += [(7, c) for c in range(11)]
+        for kind, arg in calls:
+            if kind == 4 and k < 2:
+                continue
+            # finishing the round executes decode: only for dedicated codecs and only for some kinds (cost)
+            fin = finish and kind in (0, 2, 4, 6, 7) and arg in (0, 3, 9)
+            out.append(dict(mod="gen::c07g", name=f"dec_failed_{tag}_{k}_{r}_k{kind}_a{arg}", unwind=66, stub=(fin and "low" in tag),
+                            body=f"crate::c07::dec_failed_call::<{ty}>({k}, {r}, {kind}, {arg}, {'true' if fin else 'false'})",
+                            kind="dec_failed", codec=ty, k=k, r=r, call=kind, arg=arg, finish=fin, tag=tag))
+    encs = [("high", "HighRateEncoder<N>", 2, 1, True), ("low", "LowRateEncoder<N>", 2, 3, True),
+            ("dhigh", "DefaultRateEncoder<N>", 2, 1, False), ("dlow", "DefaultRateEncoder<N>", 2, 3, False)]
+    for tag, ty, k, r, finish in encs:
+        calls = [(0, l) for l in (0, 1, 3, 4, 6)] + [(1, 0), (2, 0)] + [(3, c) for c in range(11)]
+        for kind, arg in calls:
+            fin = finish and kind != 1 and arg in (0, 3, 9)
+            out.append(dict(mod="gen::c07g", name=f"enc_failed_{tag}_{k}_{r}_k{kind}_a{arg}", unwind=66,
+                            body=f"crate::c07::enc_failed_call::<{ty}>({k}, {r}, {kind}, {arg}, {'true' if fin else 'false'})",
+                            kind="enc_failed", codec=ty, k=k, r=r, call=kind, arg=arg, finish=fin, tag=tag))
+    return out
+
+
+# ------------------------------------------------------------------ C11
+def c11_family():
+    out = []
+    for rate, k, r in (("high", 2, 2), ("low", 2, 2), ("high", 3, 2), ("low", 2, 3)):
+        ty = f"{DEC_TY[rate]}<N>"
+        prefixes = [(0, 0), (1, 0), (0, 1), (1 << (k - 1), 1 << (r - 1))]
+        for kinds in (0, 1, 2):
+            for po, pr in prefixes:
+                free_o = k - popcount(po)
+                free_r = r - popcount(pr)
+                if (kinds == 0 and free_o < 2) or (kinds == 2 and free_r < 2) or (kinds == 1 and (free_o < 1 or free_r < 1)):
+                    continue
+                out.append(dict(mod="gen::c11g", name=f"confluence_{rate}_{k}_{r}_kinds{kinds}_po{po}_pr{pr}", unwind=66,
+                                body=f"crate::c11::confluence::<{ty}>({k}, {r}, {kinds}, {po}, {pr})",
+                                kind="confluence", rate=rate, k=k, r=r, kinds=kinds, po=po, pr=pr))
+    return out
+
+
+# ------------------------------------------------------------------ C17
+def c17_family():
+    out = []
+    cases = [
+        # (from rate, k1, r1, sb1, to rate, k2, r2, sb2)
+        ("high", 3, 2, 66, "high", 2, 1, 2), ("high", 2, 1, 2, "high", 3, 2, 66), ("high", 3, 2, 130, "high", 3, 2, 64),
+        ("low", 2, 3, 66, "low", 1, 2, 2), ("low", 1, 2, 2, "low", 2, 3, 66), ("low", 2, 3, 64, "low", 2, 3, 64),
+        ("high", 3, 2, 66, "low", 2, 3, 2), ("high", 3, 1, 2, "low", 1, 3, 2), ("low", 2, 3, 66, "high", 3, 2, 2), ("low", 1, 2, 2, "high", 3, 2, 66),
+        ("high", 5, 2, 2, "low", 1, 2, 130), ("low", 2, 5, 2, "high", 2, 1, 130),
+    ]
+    for fr, k1, r1, s1, to, k2, r2, s2 in cases:
+        same = fr == to
+        for side in ("enc", "dec"):
+            T1 = (ENC_TY if side == "enc" else DEC_TY)[fr] + "<N>"
+            T2 = (ENC_TY if side == "enc" else DEC_TY)[to] + "<N>"
+            conv = f"crate::c17::{fr}_id_{side}" if same else f"crate::c17::{fr}_to_{to}_{side}"
+            out.append(dict(mod="gen::c17g", name=f"{side}_reuse_{fr}_{k1}_{r1}_{s1}_to_{to}_{k2}_{r2}_{s2}", unwind=66,
+                            body=f"crate::c17::{side}_reuse::<{T1}, {T2}>({k1}, {r1}, {s1}, {k2}, {r2}, {s2}, {'true' if same else 'false'}, {conv})",
+                            kind=side, fr=fr, to=to, a=(k1, r1, s1), b=(k2, r2, s2), same=same))
+    return out
+
+
+# ------------------------------------------------------------------ C09
+def rule(k, r):
+    a, b = npow2(k), npow2(r)
+    return a > b or (a == b and k <= r)
+
+
+def c09_family():
+    out = []
+    cfgs = [(1, 1), (2, 1), (1, 2), (2, 2), (3, 2), (2, 3), (3, 3), (4, 3), (3, 4), (5, 3), (3, 5), (4, 4), (5, 4), (4, 5), (7, 1), (1, 7), (6, 2), (2, 6), (9, 5), (5, 9), (8, 8), (12, 3)]
+    for k, r in cfgs:
+        for side in ("enc", "dec"):
+            for sb in (2, 66):
+                out.append(dict(mod="gen::c09g", name=f"default_new_{side}_{k}_{r}_{sb}", unwind=40,
+                                body=f"crate::c09::default_new_{side}({k}, {r}, {sb})", kind="new", side=side, k=k, r=r, sb=sb, high=rule(k, r)))
+    resets = [((3, 2, 2), (2, 3, 2)), ((2, 3, 2), (3, 2, 2)), ((3, 2, 66), (2, 3, 2)), ((2, 3, 2), (5, 3, 66)), ((3, 2, 2), (4, 1, 2)), ((2, 3, 2), (1, 4, 2)),
+              ((4, 4, 2), (5, 4, 2)), ((5, 4, 2), (4, 4, 2)), ((3, 3, 2), (4, 3, 2)), ((1, 1, 2), (2, 1, 130)), ((2, 2, 130), (1, 2, 2)), ((4, 5, 2), (5, 4, 2))]
+    for a, b in resets:
+        for side in ("enc", "dec"):
+            out.append(dict(mod="gen::c09g", name=f"default_reset_{side}_{'_'.join(map(str, a))}_to_{'_'.join(map(str, b))}", unwind=40,
+                            body=f"crate::c09::default_reset_{side}({a[0]}, {a[1]}, {a[2]}, {b[0]}, {b[1]}, {b[2]})", kind="reset", side=side, a=a, b=b,
+                            cross=rule(a[0], a[1]) != rule(b[0], b[1])))
+    for k, r in ((2, 2), (3, 2), (2, 3), (4, 3), (3, 4)):
+        rate = "high" if rule(k, r) else "low"
+        for ln in (2, 0, 3, 4):
+            out.append(dict(mod="gen::c09g", name=f"default_delegates_dec_{k}_{r}_len{ln}", unwind=40,
+                            body=f"crate::c09::default_delegates_dec::<{DEC_TY[rate]}<N>>({k}, {r}, {ln})", kind="deleg_dec", k=k, r=r, ln=ln, rate=rate))
+            out.append(dict(mod="gen::c09g", name=f"default_delegates_enc_{k}_{r}_len{ln}", unwind=40,
+                            body=f"crate::c09::default_delegates_enc::<{ENC_TY[rate]}<N>>({k}, {r}, {ln})", kind="deleg_enc", k=k, r=r, ln=ln, rate=rate))
+        for complete in (False, True):
+            out.append(dict(mod="gen::c09g", name=f"default_delegates_decode_{k}_{r}_{'complete' if complete else 'toofew'}", unwind=40,
+                            body=f"crate::c09::default_delegates_decode::<{DEC_TY[rate]}<N>>({k}, {r}, {'true' if complete else 'false'})",
+                            kind="deleg_decode", k=k, r=r, complete=complete, rate=rate))
+    return out
+
+
 FAMILIES = {
+    "c09g": c09_family,
+    "c11g": c11_family,
+    "c17g": c17_family,
+    "c07g": c07_family,
+    "c10g": c10_family,
+    "c12g": c12_family,
     "c01g": c01_family,
     "c02g": c02_family,
     "c06g": c06_family,
@@ -173,6 +327,13 @@ def all_members():
 
 def render(modname):
     members = FAMILIES[modname]()
+    if modname == "c10g":
+        lines = ["// generated by lib/families.py\n"]
+        for m in members:
+            lines.append("#[cfg_attr(kani, kani::proof)]\n#[cfg_attr(kani, kani::unwind(%d))]\n" % m["unwind"]
+                         + "#[cfg_attr(kani, kani::stub(std::hash::RandomState::new, crate::c10::fixed_random_state))]\n"
+                         + f"pub fn {m['name']}() {{\n    {m['body']}\n}}\n")
+        return "".join(lines)
     lines = ["// generated by lib/families.py\n", "#![allow(unused_imports)]\n", "use crate::{h, hf};\n", "use crate::model::*;\n",
              "use reed_solomon_simd::rate::*;\n", "type N = NullEngine;\n\n"]
     for m in members:
